@@ -1,4 +1,5 @@
 import Scion.Model.Ohp
+import Scion.Gen.R2Ohp
 /-! C12 — one-hop paths are issued and completed only between the right neighbours.
     Theorems about `Scion.Ohp.process` (model of `processOHP`), for every configuration, every MAC
     function, every packet. -/
@@ -202,6 +203,25 @@ theorem bfd_send_is_instance (c : Cfg) (mac : Mac) (p : Pkt) (ifID ts : Nat)
     (hs : p.srcIA = c.localIA) (hn : c.nb ifID ≠ 0) (hdst : p.dstIA = c.nb ifID) :
     process c mac p = .fwd ifID (issued (bfdSendPath mac ifID ts)) :=
   (ohp_out_iff c mac p ifID _ h0).mpr ⟨_, hd, rfl, hpl, hs, hn, hdst, rfl, rfl, rfl⟩
+
+/-- T3: sizes the model uses are the ones in the source -/
+theorem gen_consts :
+    PathLen = Scion.Gen.R2Ohp.PathLen ∧ Scion.Gen.R2Ohp.CmnHdrLen = 12 ∧ Scion.Gen.R2Ohp.MacLen = 6 ∧
+    Scion.Gen.R2Ohp.MACBufferSize = 16 ∧ (bfdSendPath id 1 0).first.exp = Scion.Gen.R2Ohp.hopFieldDefaultExpTime ∧
+    (macInput 0 0 0 0 0).length = Scion.Gen.R2Ohp.MACBufferSize := by decide
+
+/-- the checks of `processOHP` the stages of the model were written against, in source order: path type,
+    ConsDir, PayloadLen; then, leaving: source AS, neighbour known, neighbour = destination, MAC; entering:
+    destination AS, neighbour = source; re-serialisation and local resolution errors -/
+def expectedProcessOHPConds : List String :=
+  ["!ok", "!ohp.Info.ConsDir", "int(s.PayloadLen) != len(s.Payload)", "p.ingressFromLink == 0",
+   "!p.d.localIA.Equal(s.SrcIA)", "neighborIA.IsZero()", "!neighborIA.Equal(s.DstIA)",
+   "subtle.ConstantTimeCompare(ohp.FirstHop.Mac[:], mac[:]) == 0",
+   "err := updateSCIONLayer(p.pkt.RawPacket, s); err != nil", "!p.d.localIA.Equal(s.DstIA)",
+   "!neighborIA.Equal(s.SrcIA)", "err := updateSCIONLayer(p.pkt.RawPacket, s); err != nil", "err != nil"]
+
+/-- T3: `processOHP` still has these checks in this order -/
+theorem gen_processOHP_shape : Scion.Gen.R2Ohp.processOHPConds = expectedProcessOHPConds := by decide
 
 /-! Non-vacuity: with the identity as "MAC", AS 1 (interface 5 towards AS 2) issues a one-hop packet and
     AS 2 (interface 9 towards AS 1) completes it. -/
